@@ -46,6 +46,10 @@ def gen_form(rng, max_parts=4, boundary=None):
              "extra": rng.random() < 0.3, "fold": rng.random() < 0.15}
         if rng.random() < 0.25:
             p["cd"] = rng.randrange(1, 6)  # a legal but non-canonical spelling of Content-Disposition
+        if rng.random() < 0.1:
+            p["extra"] = "twice"  # the same header name on two lines of one part: one value, joined with ", " (RFC 7230 3.2.2)
+        if not isfile and rng.random() < 0.15:
+            p["ctype"] = "text/plain"  # a text field may say what it is (RFC 7578 4.4); without a charset parameter the form's charset applies
         if isfile and rng.random() < 0.06:
             # a client that ignores the declared charset: file name sent as Latin-1 bytes (not valid UTF-8)
             p["filename"], p["latin1_fn"] = rng.choice(["caf\xe9.txt", "\xf1.bin"]), True
@@ -68,7 +72,10 @@ def encode(form):
         hs = [content_disposition(p)]
         if p.get("ctype"):
             hs.append(b"Content-Type: " + p["ctype"].encode())
-        if p.get("extra"):
+        if p.get("extra") == "twice":
+            hs.insert(0, b"X-Extra: some value; with=stuff")
+            hs.append(b"x-extra: and more" if len(p["name"]) % 2 else b"X-Extra: and more")  # spelled the same way, or in another letter case
+        elif p.get("extra"):
             hs.insert(0, b"X-Extra: some value; with=stuff")
         if p.get("fold"):
             # RFC 2231 / RFC 822 folding: a header continued on the next line after a line break + space/tab
@@ -132,7 +139,7 @@ def part_headers(p):
     """the part headers an application can observe besides Content-Disposition: (content-type, x-extra); only file parts expose them through the helpers"""
     if p["filename"] is None:
         return None
-    return (p.get("ctype"), "some value; with=stuff" if p.get("extra") else None)
+    return (p.get("ctype"), ("some value; with=stuff, and more" if p.get("extra") == "twice" else "some value; with=stuff") if p.get("extra") else None)
 
 
 def observed_headers(filename, headers):
